@@ -132,9 +132,10 @@ func (w *Writer) WriteVector4(accessorComponentType AccessorComponentType, data 
 	if accessorComponentType == AccessorComponentType_FLOAT {
 		for i := 0; i < data.Len(); i++ {
 			v := data.At(i)
+			w.WriteVector4AsFloat32(v)
+			v = v.ToFloat32().ToFloat64()
 			min = vector4.Min(min, v)
 			max = vector4.Max(max, v)
-			w.WriteVector4AsFloat32(v)
 		}
 	}
 
@@ -185,6 +186,7 @@ func (w *Writer) WriteVector3(accessorComponentType AccessorComponentType, data 
 			if v.ContainsNaN() {
 				continue
 			}
+			v = v.ToFloat32().ToFloat64()
 			min = vector3.Min(min, v)
 			max = vector3.Max(max, v)
 		}
@@ -242,6 +244,7 @@ func (w *Writer) WriteVector2(accessorComponentType AccessorComponentType, data 
 			if v.ContainsNaN() {
 				continue
 			}
+			v = v.ToFloat32().ToFloat64()
 			min = vector2.Min(min, v)
 			max = vector2.Max(max, v)
 		}
